@@ -106,7 +106,8 @@ TraceReq ==
                      /\ fs' = SetOf(e.tree)
                 ELSE /\ ProjTreeW(o.fs, o.wild) = ProjTreeW(fs, o.wild)
                      /\ fs' = fs
-             /\ IF e.closed
+             /\ IF e.handles = -1 THEN TRUE   \* concurrent run: the ledger cannot attribute handles to connections
+                ELSE IF e.closed
                 THEN e.handles = 0      \* teardown releases everything (LedgerBalanced)
                 ELSE \/ e.handles >= RawHeldMin(o.cs) /\ e.handles <= RawHeldMax(o.cs, o.fs)
                      \/ e.faults > 0 /\ e.handles <= 3 + RawHeldMax(o.cs, o.fs)   \* where a fault leaves the state is unspecified; the ledger is settled at the end
